@@ -117,6 +117,47 @@ func genPart(cfg Config, emit func(string, bool, []string)) {
 		}
 		g.emit("new %d", ro)
 		g.addVer(-1)
+		if c%32 == 19 {
+			// the FIRST transaction of a fresh tree (transaction id 0, the id leaves report): iterators and
+			// clones taken over a single entry inside the transaction, which then overwrites / removes
+			// that entry; the iterators keep what they were taken over
+			k1 := hx(g.key())
+			k2 := hx(append(unhx(k1), 1))
+			g.emit("txn 0")
+			g.emit("ins %s 10", k1)
+			if r.IntN(2) == 0 {
+				g.emit("ins %s 20", k2)
+			}
+			kinds := [][]string{{"prefix", k1}, {"lb", k1}, {"iter", "x"}, {"prefix", k2}}
+			n0 := g.niters
+			for _, kd := range kinds {
+				g.emit("keepiter %s %s", kd[0], kd[1])
+				g.niters++
+				switch r.IntN(3) {
+				case 0:
+					g.emit("ins %s %d", k1, 11+g.niters)
+				case 1:
+					g.emit("mod %s %d", k1, 11+g.niters)
+				default:
+					g.emit("del %s", k1)
+					g.emit("ins %s %d", k1, 31+g.niters)
+				}
+			}
+			for i := n0; i < g.niters; i++ {
+				g.emit("iterall %d", i)
+			}
+			g.emit("commit")
+			g.addVer(0)
+			g.head = g.nvers - 1
+			g.emit("notify")
+			for i := n0; i < g.niters; i++ {
+				g.emit("next %d 1", i)
+				g.emit("iterall %d", i)
+			}
+			g.emit("viter %d", g.head)
+			emit(fmt.Sprintf("part first-txn-iterators rootonly=%d", ro), true, g.ops)
+			continue
+		}
 		if c%16 == 11 {
 			// (1) keys 33+ radix levels deep with larger siblings at every level: iterators positioned deep
 			// in the tree, read with All() twice and with Next() in between
